@@ -370,8 +370,8 @@ def constant_cmp_contract(src_root):
                  globals={'_CONSTANT_TYPE_ORDER': Val('clstuple', x=order), '_CONSTANT_COMPARATORS': Val('clsdict', x=comps)},
                  registry_ext={'methods': {('.index', 'clstuple'): m_index, ('.get', 'clsdict'): m_get}},
                  truthy_handlers={'cmpfn': lambda x, v: z3.Or(*[v.t == KIND[k] for k in comps])},
-                 assumptions=['callee contracts of constant_cmp: hex_cmp, bin_cmp, list_cmp are total preorders on constants of their kind (assumed: bytes / sorted-list comparison is outside the modelled subset); '
-                              'bool_cmp and generic_constant_cmp are proved'])
+                 assumptions=['callee contracts of constant_cmp: list_cmp is a total preorder on list constants (assumed: sorting with a comparator key and iter_lex_cmp are outside the modelled subset); '
+                              'bool_cmp, generic_constant_cmp, hex_cmp and bin_cmp are proved'])
     c.tables = (order, comps)
     return c
 
@@ -445,3 +445,37 @@ def run_object_path_cmp(chk):
     chk.lemma('object_path_cmp: reflexive: cmp(a, a) == 0', F(a, a) == 0, assumptions=ax)
     chk.lemma('object_path_cmp: antisymmetric: sign cmp(a, b) == - sign cmp(b, a)', sgn(F(a, b)) == -sgn(F(b, a)), assumptions=ax)
     chk.lemma('object_path_cmp: transitive: cmp(a, b) <= 0 and cmp(b, c) <= 0 => cmp(a, c) <= 0', z3.Implies(z3.And(F(a, b) <= 0, F(b, d) <= 0), F(a, d) <= 0), assumptions=ax)
+
+
+# ------------------------------------------------------------------------------------------------------------------------------------------
+# hex_cmp / bin_cmp: decode, then the three-way comparison of the decoded bytes.  bytes objects compare lexicographically by byte value -- the order of strings over the code
+# points 0..255 -- so the decoded value is modelled as a z3 string given by an uninterpreted decoding function of the constant's text.
+HEXDEC = z3.Function('bytes.fromhex', E.S, E.S); B64DEC = z3.Function('base64.standard_b64decode', E.S, E.S)
+
+
+def decoded_cmp_contract(which):
+    fn, dec, callee = ('hex_cmp', HEXDEC, 'bytes.fromhex') if which == 'hex' else ('bin_cmp', B64DEC, 'base64.standard_b64decode')
+
+    def h_dec(x, e, p, site):
+        for p1, vs in x.ev_seq(list(e.args), p):
+            if isinstance(vs, Exc): yield p1, vs
+            elif len(vs) != 1 or vs[0].sort != 'str': raise Unsupported(site + ' decoding of something else than the constant\'s text')
+            else: yield p1, Str(dec(vs[0].t))
+    mk = lambda n: E.Rec(value=Str(z3.String(n + '.value')))
+    return Contract(f'{CC}::{fn}', props=['C09'], params={'value1': mk('value1'), 'value2': mk('value2')},
+                    ensures=[('0 exactly when the two constants decode to the same bytes', lambda a, r: (expect(r, 'int') == 0) == (dec(a['value1'].x['value'].t) == dec(a['value2'].x['value'].t)))],
+                    raises={}, handlers={callee: h_dec, 'generic_cmp': _h_generic_cmp},
+                    assumptions=[f'{callee} is a function of the text (it raises for text that is not valid; constants of the pattern language are valid by the grammar); bytes compare '
+                                 'lexicographically by byte value, like strings over the code points 0..255'])
+
+
+def run_decoded_cmps(chk):
+    from vf.summary import Summary, order_lemmas
+    for which in ('hex', 'bin'):
+        c = decoded_cmp_contract(which); rep = chk.prove(c); chk.canary(c)
+        s = Summary(rep, ['value1', 'value2'])
+        if not s.ok:
+            chk.undecided_notes.append(f'{which}_cmp: no summary ({s.why})'); continue
+        mk = lambda n, w=which: [z3.String(f'{w}_{n}')]
+        for name, assume, claim in order_lemmas(lambda a, b: s.apply(a, b), lambda a: [], mk, f'{which}_cmp: '):
+            chk.lemma(name, claim, assumptions=list(assume))
